@@ -19,7 +19,7 @@ fn main() {
     }
 }
 
-/// developer aid: `--prop PROBE --what desc|schema --text '...'`
+/// developer aid: `--prop PROBE --what desc|parse|schema|uri --text '...'`
 fn probe(args: &vcore::Args) -> ! {
     let text = args.extra.get("text").cloned().unwrap_or_default().replace("\\n", "\n").replace("\\r", "\r");
     match args.extra.get("what").map(|s| s.as_str()).unwrap_or("desc") {
@@ -34,6 +34,13 @@ fn probe(args: &vcore::Args) -> ! {
                     println!("  {}: {:?}", c37::FLAVOURS[fl], items.map(|v| v.iter().map(|i| format!("{:?}@{:?}", i.kind, i.range)).collect::<Vec<_>>()));
                 }
             }
+        }
+        "parse" => {
+            let tree = emmylua_parser::LuaParser::parse(&text, emmylua_parser::ParserConfig::default());
+            for e in tree.get_errors() {
+                println!("{:?} {:?} {}", e.kind, e.range, e.message);
+            }
+            println!("{} error(s)", tree.get_errors().len());
         }
         "schema" => {
             let v: serde_json::Value = serde_json::from_str(&text).unwrap_or_else(|e| vcore::die(&format!("bad json {e}")));
